@@ -1,4 +1,5 @@
 import Folang.Model.Tokenizer
+import Folang.Lemmas.TokBlanks
 /-
 C06 — only relative indentation and line structure matter (offside rule).  (PARTIAL)
 
@@ -9,6 +10,12 @@ Proved (all byte strings, all reachable tokenizer states):
   that EOL token and the current token.  The hypothesis is forced: a block comment containing a
   newline, followed by code on the same line, gives a wrong column (known finding D10), and `$"…"`
   tokens begin one byte late (known finding D13; the existing suite forbids the repair).
+  `indent_shift` — indenting a line by k more blanks changes NOTHING about its first token except
+      its position: after an EOL token, the tokenizer on  pre ++ (k blanks) ++ s  returns the same
+      token as on  pre ++ s , with `col` and `begin` larger by exactly k (all byte strings `pre`, `s`,
+      all k; comments and tabs in `s` included; an unterminated comment panics in both);
+  `scan_blanks`, `nextNonSpace_blanks` (Lemmas/TokBlanks.lean) — blanks in front of any position
+      merge into one SPACE token that is exactly k bytes longer, the next token is unchanged.
 NOT proved (stated): `C06_full` — the emitted Go is invariant under every re-layout of the layout
 grammar.  It is tied by the layout stream (one abstract program under many random layouts through the
 real compiler, byte-identical output required) and the dedent test.
@@ -91,5 +98,72 @@ theorem col_invariant (buf : List UInt8) (z0 : Tkz) (h0 : newTkz buf = some z0) 
 example : (newTkz [49, 10, 32, 50, 10]).isSome = true := by decide
 example : ((newTkz [49, 10, 32, 50, 10]).bind (fun z0 => iter 2 (z0, 0))).map (fun s => (s.1.cur.kind, s.1.col, s.2)) =
     some ("INT_IMM", 1, 2) := by decide
+
+/-! ### indentation only shifts columns -/
+
+open Folang.Literal in
+/-- two tokenizer states at the same EOL token, over buffers that differ only by `k` blanks inserted
+right after it -/
+structure IndentPair (pre s : Bytes) (k : Nat) (z z0 : Tkz) : Prop where
+  buf : z.buf = pre ++ (blanks k ++ s)
+  buf0 : z0.buf = pre ++ s
+  eol : z.cur.kind = "EOL"
+  cur : z0.cur = z.cur
+  pos : z0.bpos = z.bpos
+  ends : z.bpos + z.cur.len = pre.length
+
+open Folang.Literal in
+/-- **indent_shift**: the first token of the next line is the same token; its column and its begin
+are larger by exactly the number of blanks added in front of the line -/
+theorem indent_shift (pre s : Bytes) (k : Nat) (z z0 : Tkz) (h : IndentPair pre s k z z0) :
+    (tkzNext z).map (fun z' => (z'.cur, z'.col, z'.bpos)) =
+      (tkzNext z0).map (fun z1 => (z1.cur, z1.col + (k : Int), z1.bpos + k)) := by
+  obtain ⟨hb, hb0, heol, hcur, hpos, hends⟩ := h
+  have hne : z.cur.kind ≠ "EOF" := by rw [heol]; decide
+  have hne0 : z0.cur.kind ≠ "EOF" := by rw [hcur]; exact hne
+  have heol0 : z0.cur.kind = "EOL" := by rw [hcur]; exact heol
+  have hends0 : z0.bpos + z0.cur.len = pre.length := by rw [hcur, hpos]; exact hends
+  have hlen : z.buf.length = pre.length + (k + s.length) := by rw [hb]; simp [blanks]
+  have hlen0 : z0.buf.length = pre.length + s.length := by rw [hb0]; simp
+  have hdrop : z.buf.drop pre.length = blanks k ++ s := by rw [hb]; simp
+  have hdrop0 : z0.buf.drop pre.length = s := by rw [hb0]; simp
+  unfold tkzNext
+  simp only [hne, hne0, if_false, heol, heol0, if_true, hends, hends0]
+  by_cases hempty : k + s.length = 0
+  · -- nothing follows: EOF in both
+    have hk : k = 0 := by omega
+    have hs : s.length = 0 := by omega
+    simp [hlen, hlen0, hk, hs]
+  · have hgt : ¬ z.buf.length ≤ pre.length := by omega
+    simp only [hgt, if_false, hdrop]
+    have hmain := nextNonSpace_blanks k s pre.length (z.buf.length + 2) (s.length + 2)
+      (by rw [hlen]; simp [blanks]) (Nat.le_refl _)
+    rw [hmain, nextNonSpace_off]
+    by_cases hs0 : s.length = 0
+    · -- only blanks follow: EOF at the end of the buffer in both
+      have hsnil : s = [] := List.eq_nil_of_length_eq_zero hs0
+      subst hsnil
+      simp [hlen0, hlen, nextNonSpace, scanTokenAt]
+      omega
+    · have hgt0 : ¬ z0.buf.length ≤ pre.length := by omega
+      simp only [hgt0, if_false, hdrop0]
+      rw [nextNonSpace_fuel (z0.buf.length + 2) (s.length + 2) s pre.length (by omega) (Nat.le_refl _)]
+      cases nextNonSpace (s.length + 2) pre.length s with
+      | none => rfl
+      | some r =>
+        obtain ⟨b, t⟩ := r
+        simp
+        omega
+
+/-- non-vacuity: after the EOL of "a\n", the line "b" indented by three blanks vs. not indented -/
+def zInd : Tkz := { buf := [97, 10, 32, 32, 32, 98], cur := { kind := "EOL", len := 1 }, bpos := 1, col := 1 }
+def zFlat : Tkz := { buf := [97, 10, 98], cur := { kind := "EOL", len := 1 }, bpos := 1, col := 1 }
+
+example : IndentPair [97, 10] [98] 3 zInd zFlat :=
+  ⟨by decide, by decide, rfl, rfl, rfl, by decide⟩
+
+example : (tkzNext zInd).map (fun z => (z.col, z.bpos)) = some (3, 5) ∧
+    (tkzNext zFlat).map (fun z => (z.col, z.bpos)) = some (0, 2) := by
+  constructor <;> decide
 
 end Folang.Props.C06
